@@ -57,6 +57,13 @@ func enroll(t vkit.TB, c config, state, params *structpb.Struct, subst string) b
 	}
 	w := vkit.NewWorld(vkit.WorldConfig{Backend: backends[c.Backend], StorageWrapper: c.StorageWrap, RootOpts: rootOpts})
 	defer w.Close()
+	if c.Roots == "rotation-overdue" {
+		// the server's current root has expired, next is valid: rotation is overdue
+		// at the time of the enrollment (the root set is the harness's own, stored
+		// through the library)
+		now := time.Now()
+		w.InstallRoots(vkit.MintRoot(now.Add(-48*time.Hour), now.Add(-time.Hour)), vkit.MintRoot(now.Add(-24*time.Hour), now.Add(24*time.Hour)))
+	}
 	fail := func(key, f string, a ...any) bool {
 		return !vkit.Violate(t, prop, "C04/"+c.Flow+"/"+key, fmt.Sprintf(f, a...), c)
 	}
@@ -409,7 +416,7 @@ func TestEnum_Product(t *testing.T) {
 		for _, b := range []string{"inmem", "file", "storeonce"} {
 			for _, sw := range []bool{false, true} {
 				for _, nw := range []bool{false, true} {
-					for _, rc := range []string{"default", "both-valid"} {
+					for _, rc := range []string{"default", "both-valid", "rotation-overdue"} {
 						for _, nb := range []string{"inmem", "file"} {
 							i++
 							if i%shards != shard {
@@ -436,7 +443,7 @@ func TestProp_Random(t *testing.T) {
 			Backend:     rapid.SampledFrom([]string{"inmem", "file", "storeonce"}).Draw(t, "backend"),
 			StorageWrap: rapid.Bool().Draw(t, "storageWrapper"),
 			NodeWrap:    rapid.Bool().Draw(t, "nodeWrapper"),
-			Roots:       rapid.SampledFrom([]string{"default", "both-valid"}).Draw(t, "roots"),
+			Roots:       rapid.SampledFrom([]string{"default", "both-valid", "rotation-overdue"}).Draw(t, "roots"),
 			NodeBackend: rapid.SampledFrom([]string{"inmem", "file"}).Draw(t, "nodeBackend"),
 		}
 		state := vkit.GenStruct(t, "state")
